@@ -18,8 +18,10 @@ import traceback
 from . import env as _env
 
 VERIF = _env.VERIF
-EVIDENCE_DIR = os.path.join(VERIF, 'evidence')
-REPLAY_DIR = os.path.join(VERIF, 'replays')
+# VERIF_OUT redirects evidence/replays (used when a scratch tree with a seeded defect is checked)
+_OUT = os.environ.get('VERIF_OUT', VERIF)
+EVIDENCE_DIR = os.path.join(_OUT, 'evidence')
+REPLAY_DIR = os.path.join(_OUT, 'replays')
 
 
 def _load(prop):
